@@ -515,6 +515,12 @@ func TestGrid(t *testing.T) {
 	for _, c := range scen {
 		checker.Run(t, c)
 	}
+}
+
+// TestLast runs at the very end of the process: huge inputs come last, so that what they leave behind (here: half a
+// gigabyte of garbage for the collector) cannot disturb the ordinary cases.
+func TestLast(t *testing.T) {
+	vk.SetPhase("last")
 	// a stored tail longer than 2^31 bits (thorough: longer than 2^32 bits): word 0 stays incomplete, so Offset cannot advance
 	huge := Case{O: 64, Class: "scenario-huge-tail", ProbeKey: 4, Ops: []Op{{K: "set", A: 64 + 5}, {K: "set", A: 64 + 1<<31 + 77}, {K: "set", A: 64 + 1<<31 - 1}, {K: "set", A: 64 + 1<<31},
 		{K: "set", A: 64 + 1<<30 + 3}, {K: "compact"}, {K: "set", A: 64 + 1<<31 + 64*3 + 9}, {K: "set", A: 64 + 6}}}
@@ -522,4 +528,5 @@ func TestGrid(t *testing.T) {
 		huge.Ops = append(huge.Ops, Op{K: "set", A: 64 + 1<<32 + 3}, Op{K: "set", A: 64 + 1<<32 - 1}, Op{K: "compact"}, Op{K: "set", A: 64 + 1<<32 + 64 + 63})
 	}
 	checker.Run(t, huge)
+	checker.RegressLast(t)
 }
